@@ -129,6 +129,22 @@ def run(ctx):
                 break
             ev.append({"kind": "html", "obj": k, "reply": "x", "fresh": "x", "toks": toks, "post": post()})
         trs.append({"tid": i + 1, "ev": ev})
+    # repetitive sequences whose 10-residue blocks repeat on the grid (homopolymers, di- and pentapeptide repeats, one block copied
+    # to another line): where a space or a break goes depends on the position only, never on the block's content
+    blk = ["".join(ctx.rng.choices(common.AA, k=10)) for _ in range(6)]
+    reps = ["Q" * 120, "GS" * 61, "GGGGS" * 25, blk[0] + blk[1] + blk[2] + blk[3] + blk[4] + blk[1] + blk[5] + blk[0] + blk[1] * 3 + "KE",
+            (blk[2] * 12)[:113], "A" * 49 + "C" + "A" * 51]
+    for n_, seq in enumerate(reps):
+        o_ = lc.SP(seq)
+        html = common.call(o_.get_HTMLColorString)
+        ctx.evaluations += 1
+        toks = tokenise(html[1]) if html[0] == "ok" else None
+        if toks is None:
+            ctx.violation("html-unparseable", {"seq": seq}, expected="<p> wrapper around spaces, <br> and coloured spans", actual=html if html[0] != "ok" else html[1][:300])
+            continue
+        pr_ = objmodel.project(o_)
+        trs.append({"tid": len(trs) + 1, "ev": [{"kind": "construct", "obj": 1, "seq": list(seq), "post": {"objs": [pr_, {"alive": False}], "spGrps": 0}},
+                                              {"kind": "html", "obj": 1, "reply": "x", "fresh": "x", "toks": toks, "post": {"objs": [pr_, {"alive": False}], "spGrps": 0}}]})
     # every colour name next to itself: one trailing / leading control or blank character, a doubled or clipped letter, another
     # case -- exactly the 17 names are colours
     objs = {1: lc.SP("ACDEFGHIKLMNPQRSTVWY" * 2)}
